@@ -74,12 +74,16 @@ def handle (st : St) (idx : Nat) (line : String) : St × String :=
     | "smserver" :: "multi" :: rest =>
       let locals := ((kv rest "locals").getD "").splitOn ","
       let segss := ((kv rest "segs").getD "").splitOn "^"
+      -- the trailing META: token (metadata of earlier connections re-read at the end) belongs to no part
+      let metaBad := implToks.any (·.startsWith "META:changed")
+      let implToks := implToks.filter (fun t => ¬ t.startsWith "META:")
       let implParts := (" ".intercalate implToks).splitOn " || "
       let (i', outs, fails, tags) := (locals.zip segss).zipIdx.foldl (fun (acc : Intern × List String × List String × List String) x =>
         let ((l, sg), k) := x
         let (i2, j) := judgeSMServer dict acc.1 ((kvNat rest "cfg").getD 0) l ((kv rest "regs").getD "-") sg
           (((implParts.getD k "").splitOn " ").filter (· ≠ ""))
         (i2, acc.2.1 ++ [j.model], acc.2.2.1 ++ j.fails, acc.2.2.2 ++ j.tags)) (st.intern, [], [], [])
+      let fails := fails ++ (if metaBad then ["C11:metadata-of-an-earlier-connection-changed"] else [])
       ({ st with intern := i' }, emit idx impl { model := " || ".intercalate outs, fails := fails, tags := ("multi" :: tags).eraseDups.take 10 })
     | "smserver" :: "hist" :: rest =>
       let (i', j) := judgeSMServer dict st.intern ((kvNat rest "cfg").getD 0) ((kv rest "local").getD "v4")
@@ -104,6 +108,8 @@ def handle (st : St) (idx : Nat) (line : String) : St × String :=
        | none => bad)
     | "resource" :: "claim" :: rest =>
       (st, emit idx impl (judgeClaim ((kvNat rest "declared").getD 0) ((kvNat rest "supplied").getD 0) implToks))
+    | "resource" :: "retain" :: rest =>
+      (st, emit idx impl (judgeRetain ((kvNat rest "msgs").getD 0) ((kvNat rest "per").getD 0) ((kvNat rest "g").getD 0) implToks))
     | "resource" :: "nest" :: rest =>
       (st, emit idx impl (judgeNest ((kvNat rest "depth").getD 0) ((kv rest "op").getD "") implToks))
     | "reflect" :: "rt" :: _ => (st, emit idx impl (judgeReflect implToks))
@@ -128,7 +134,7 @@ def handle (st : St) (idx : Nat) (line : String) : St × String :=
                            fails := (if foreign then ["C15:handler-given-bytes-of-another-connection"] else []) ++
                                     (if lost then ["C15:message-on-healthy-connection-lost-after-faults-elsewhere"] else []) ++
                                     (if ¬ foreign ∧ ¬ lost ∧ implOut ≠ model then ["C15:faulty-connection-not-closed"] else []),
-                           tags := [s!"xtalk k={k} f={f} rounds={rounds}"] })
+                           tags := [s!"xtalk fk={(kvNat rest "fk").getD 0} big={(kvNat rest "big").getD 0}"] })
     | "smclient" :: "cea" :: _ => (st, emit idx impl (judgeCEA dict implToks))
     | "smclient" :: "dial" :: rest =>
       (st, emit idx impl (judgeDial dict ((kvNat rest "r").getD 0) ((kvNat rest "cfg").getD 0) ((kvNat rest "wf").getD 0)
